@@ -59,7 +59,7 @@ type panicSite struct {
 var extMayPanic = []string{
 	"core/types.BytesToBloom", "cosmos-sdk/types.NewCoin", "cosmos-sdk/types.NewCoins", "cosmos-sdk/types.NewDecCoin",
 	"cosmos-sdk/types.NewIntFromBigInt", "cosmos-sdk/types.NewIntFromUint64", "cosmos-sdk/types.(Coin).Add", "cosmos-sdk/types.(Coin).Sub",
-	"cosmos-sdk/types.(Coins).Sub", "cosmos-sdk/types.(Int).Quo", "cosmos-sdk/types.(Dec).Quo", "math/big.(*Int).Div", "math/big.(*Int).Mod", "math/big.(*Int).Quo", "math/big.(*Int).Rem",
+	"cosmos-sdk/types.(Coins).Sub", "cosmos-sdk/types.(Int).Int64", "cosmos-sdk/types.(Int).Uint64", "cosmos-sdk/types.(Int).Quo", "cosmos-sdk/types.(Dec).Quo", "math/big.(*Int).Div", "math/big.(*Int).Mod", "math/big.(*Int).Quo", "math/big.(*Int).Rem",
 }
 
 // indexBounded: the computed index is provably inside the slice by one of the recognised idioms: a dominating
